@@ -1,5 +1,5 @@
 #!/bin/bash
-cd /verif
+cd "$(dirname "$0")/.."
 for c in C04 C05 C06 C07 C08 C09 C11 C13 C14 C19 C20 C01 C02 C03 C10 C12 C15 C16 C17 C18; do
   echo "=== $c"
   /usr/bin/time -f "%es %MKB" ./check $c --tier thorough 2>&1 | grep -E "^(VIOLATION|OK|KNOWN|  what|  broken|[0-9.]+s )" | cut -c1-400
